@@ -353,3 +353,51 @@ func VerifC06_FinalizingBatchReleaseWaitsUntilCompleted() {
 		}
 	}
 }
+
+// VerifC05_InProgressMarkerRemovedByTheEndOfEveryCleanup: whichever exit is taken and wherever its clean-up is picked
+// up (the persisted cursor empty, or left at any task by an earlier reconcile or by a reset that was under way), by the
+// time the clean-up reports done the workload's in-rollout-progressing marker has been removed — as long as it is
+// there the workload webhook keeps holding the workload back.
+func c05MarkerRemoved(blueGreen bool, prefix string) {
+	vSimple = true
+	var r *v1beta1.Rollout
+	if blueGreen {
+		r = vBlueGreenRollout(1, 1)
+	} else {
+		r = vCanaryRollout(1, 1)
+	}
+	r.Status.GetSubStatus().FinalisingStep = c04Steps[verifrt.IntRange("finalisingStep", 0, len(c04Steps)-1)]
+	c := vContext(r)
+	c.FinalizeReason = c04Reason()
+	c.Workload.Annotations = map[string]string{util.InRolloutProgressingAnnotation: `{"rolloutName":"ro"}`}
+	cli := &symclient.Client{}
+	calls := &vCalls{}
+	c05StubAllTasksSucceed(calls)
+	done := false
+	for i := 0; i < 14 && !done; i++ {
+		var e error
+		if blueGreen {
+			done, e = vBlueGreenManager(cli).doCanaryFinalising(c)
+		} else {
+			done, e = vCanaryManager(cli).doCanaryFinalising(c)
+		}
+		if e != nil {
+			return
+		}
+	}
+	verifrt.Assert(done, prefix+".cleanupTerminates")
+	removed := false
+	for _, w := range cli.Writes("patch", "") {
+		if v, has := verifrt.JSONGet(w.Body, "metadata", "annotations", util.InRolloutProgressingAnnotation); has && v == "null" && w.Obj.GetName() == c.Workload.Name {
+			removed = true
+		}
+	}
+	verifrt.Assert(removed, prefix+".inProgressMarkerRemovedByTheEnd")
+}
+
+func VerifC05_CanaryInProgressMarkerRemovedByTheEndOfEveryCleanup() {
+	c05MarkerRemoved(false, "C05.canary.marker")
+}
+func VerifC05_BlueGreenInProgressMarkerRemovedByTheEndOfEveryCleanup() {
+	c05MarkerRemoved(true, "C05.bluegreen.marker")
+}
